@@ -572,6 +572,42 @@ fn check_type(ctx: &Ctx, rng: &mut Rng, st: &mut St) {
                 st.counts.inc(&format!("{api}: {what}: {class}"));
             }
         }
+        // ---- the printed text of corrupted / alternative literals through the text API: whatever
+        //      parse_arg accepts must denote a value of the type and encode exactly as that value
+        for _ in 0..3 {
+            let (l, what) = mutate_literal(rng, &canon_lit, &t, &d);
+            let Ok(text_l) = catch(|| l.to_string()) else {
+                fail(&format!("Display of a literal panicked ({what})"), json!({"literal": format!("{l:?}")}));
+                return;
+            };
+            match catch(|| prg.parse_arg(0, &text_l).map(|a| (a.as_bits(), a.as_literal()))) {
+                Err(p) => {
+                    fail(&format!("parse_arg panicked on the text of a literal ({what}): {p}"), json!({"text": text_l}));
+                    return;
+                }
+                Ok(Err(_)) => st.counts.inc(&format!("parse_arg(text): {what}: refused")),
+                Ok(Ok((b, parsed))) => match den(&parsed, &t, &d) {
+                    None => {
+                        fail(
+                            &format!("parse_arg accepts a text ({what}) whose literal denotes no value of the type"),
+                            json!({"text": text_l, "parsed": format!("{parsed:?}"), "type": t.show(&d), "bits": b.len(), "type_bits": size}),
+                        );
+                        return;
+                    }
+                    Some(dv) => {
+                        let want = ty::encode_vec(&dv, &t, &d);
+                        if b != want {
+                            fail(
+                                &format!("parse_arg accepts a text ({what}) but encodes it differently from the value it denotes"),
+                                json!({"text": text_l, "parsed": format!("{parsed:?}"), "bits": bits_str(&b), "documented": bits_str(&want)}),
+                            );
+                            return;
+                        }
+                        st.counts.inc(&format!("parse_arg(text): {what}: accepted-equal"));
+                    }
+                },
+            }
+        }
         if st.samples.len() < 2 && depth >= 2 && size < 200 {
             st.samples.push(json!({"type": t.show(&d), "definitions": defs_text(&d), "value": text, "bits": bits_str(&canon_bits)}));
         }
